@@ -426,6 +426,41 @@ fn enum_components() -> Vec<Case> {
     v
 }
 
+
+/// every short parameter/intermediate/marker prefix after a CSI or DCS introducer, also the
+/// malformed ones (a marker after a digit, a digit after an intermediate, ...), each with
+/// continuations that would do something visible if the restored parser were in another
+/// state than the original (a private marker continuing a prefix that already holds a
+/// parameter must send both to "ignore")
+fn enum_parser_prefixes() -> Vec<Case> {
+    let alphabet = ['0', '7', ';', ':', '?', '>', ' ', '$'];
+    let mut bodies: Vec<String> = vec![String::new()];
+    let mut level: Vec<String> = vec![String::new()];
+    for _ in 0..3 {
+        let mut next = vec![];
+        for b in &level {
+            for a in alphabet {
+                next.push(format!("{}{}", b, a));
+            }
+        }
+        bodies.extend(next.iter().cloned());
+        level = next;
+    }
+    let conts: [&[&str]; 6] = [&["?6h", "X\r\nY"], &["3;2H", "X"], &[">4;2m", "X"], &["7mX", "Y"], &[" qX", "Y"], &["?1049h", "X\x1b[?1049lY"]];
+    let mut v = vec![];
+    for intro in ["\x1b[", "\u{9b}", "\x1bP", "\u{90}"] {
+        for b in &bodies {
+            for ct in conts {
+                let mut c = Case::new(6, 4, None).feed("ab\x1b[2;2r\x1b[2;3H").feed(format!("{}{}", intro, b));
+                c.tail = ct.iter().map(|s| s.to_string()).collect();
+                c.tail.push("\x07Z\x1b\\W\x1b[1;1Hq".into());
+                v.push(c);
+            }
+        }
+    }
+    v
+}
+
 /// origin mode on with the cursor parked outside the scroll region (reached by restoring a
 /// cursor saved before the margins moved), then moved relatively in every direction; with
 /// and without a saved context that disagrees with the current modes (only the latter is
@@ -467,6 +502,8 @@ pub fn run(env: &Env) -> PropRun {
     parts.push(run_part(env, "enum-origin-outside-region", eo.len(), true, "6x5: every scroll region x every saved row outside it x 3 columns x 3 set-ups before the save (plain, pen, auto-wrap off) x 13 relative moves after the restore x 7 follow-ups (saved auto-wrap off + current on is the listed exception K2)", &|i| eo.get(i).cloned(), &j));
     let ec = enum_components();
     parts.push(run_part(env, "enum-components", ec.len(), true, "2 sizes x (all ordered pairs of 20 hidden-state setters, the second cut at every position) + (20 setters x 22 partial sequences covering every non-ground parser state x 2 completions)", &|i| ec.get(i).cloned(), &j));
+    let pp = enum_parser_prefixes();
+    parts.push(run_part(env, "enum-parser-prefixes", pp.len(), true, "6x4 with a scroll region: {ESC [, U+009B, ESC P, U+0090} x every string of 0-3 characters over {0 7 ; : ? > SP $} (well-formed and malformed prefixes) x 6 continuations (private-marker mode set, CUP, marker + SGR-like, SGR, intermediate + final, ?1049h) + a string terminator", &|i| pp.get(i).cloned(), &j));
     parts.push(random_part(env, "origin-outside-random", env.tier.scale(30_000, 30), &gen_origin_outside, &j));
     parts.push(random_part(env, "short-every-cut", env.tier.scale(6_000, 30), &gen_short_all_cuts, &j));
     parts.push(random_part(env, "random-histories", env.tier.scale(40_000, 40), &gen_case, &j));
